@@ -58,7 +58,9 @@ def observer_restore(ctx, prog, cls_fq, name, comps):
                         saved[tok[0]] = set(comps)
                 elif recv == 'self.buffer' and attr == 'tell':
                     tok = [nm for nm, info in w.tokens.items() if info[0] == 'call' and len(info) > 2 and info[2] is o]
-                    if tok and state['BYTE'] == 'clean':
+                    # the string class reads through a decoder that sits on the byte stream and reads ahead (readline,
+                    # iteration): buffer.tell() is the stream's position, not the decoder's, so it saves nothing there
+                    if tok and state['BYTE'] == 'clean' and 'TELL' not in comps:
                         saved[tok[0]] = {'BYTE'}
                 elif recv == 'self' and attr == 'seek':
                     a0 = txt(v.args[0]) if v.args else ''
@@ -69,6 +71,11 @@ def observer_restore(ctx, prog, cls_fq, name, comps):
                         if set(comps) <= saved[a0]:
                             for c in comps:
                                 state[c] = 'clean'
+                    elif 'TELL' in comps and len(v.args) == 1 and a0 == 'self._tell' and \
+                            any(k.startswith('self._tell@') for k in saved):
+                        # seek to the code-point position saved while clean: re-establishes the byte position with it
+                        for c in comps:
+                            state[c] = 'clean'
                     else:
                         for c in comps:
                             state[c] = 'disturbed'
